@@ -1,6 +1,6 @@
 (* Support definitions for the kernel translator (harness/translate/kernel.py): the list combinators the
    generated definitions (coq/gen/Cxx/GenK_*.v) are written with.  Definitions only; lemmas in KBaseProofs.v. *)
-From Coq Require Import Reals List ZArith Bool.
+From Coq Require Import Reals List ZArith QArith Bool.
 From Lerax Require Export CCBase Common.
 From Lerax Require Import Env.
 Import ListNotations.
@@ -59,6 +59,8 @@ Fixpoint kfoldmap {C K Y : Type} (f : C -> K -> C * Y) (c : C) (l : list K) : C 
   | [] => (c, [])
   | k :: tl => let cy := f c k in let r := kfoldmap f (fst cy) tl in (fst r, snd cy :: snd r)
   end.
+(* the same with the initial carry first (so that the type of the carry is known when the body is elaborated) *)
+Definition kfoldmapi {C K Y : Type} (c : C) (l : list K) (f : C -> K -> C * Y) : C * list Y := kfoldmap f c l.
 (* jr.split(key, n) for a symbolic n *)
 Definition ksplit_keys (k : kpath) (n : nat) : list kpath := map (fun i => ks k n i) (seq 0 n).
 
@@ -70,6 +72,7 @@ Fixpoint kchunks {A} (B n : nat) (l : list A) : list (list A) :=
   end.
 Definition kreshape {A} (B : nat) (l : list A) : list (list A) := kchunks B (length l / B) l.
 
+Definition ksumQ (l : list Q) : Q := fold_right Qplus 0%Q l.
 Definition ksum (l : list R) : R := fold_right Rplus 0%R l.
 Definition kmean (l : list R) : R := (ksum l / INR (length l))%R.
 
